@@ -69,7 +69,81 @@ message(get_option('o_a'))
         'subprojects/sp/meson.build': "project('sp')\n",
         'subprojects/sp/meson.options': "option('sp_y', type: 'string', value: 'y')\noption('sp_x', type: 'string', value: 'x')\n",
     },
+    'compiled': {
+        'meson.build': """project('compiled', 'c', version: '0.3', default_options: ['b_ndebug=if-release', 'c_std=c99'])
+lib = static_library('l', 'f.c', install: true)
+executable('e', 'm.c', link_with: lib, c_args: ['-DX=1'])
+import('pkgconfig').generate(lib, name: 'l', description: 'd', variables: ['b=2', 'a=1'])
+""",
+        'f.c': 'int f(void) { return 1; }\n',
+        'm.c': 'int f(void); int main(void) { return f() - 1; }\n',
+    },
 }
+
+# ---- histories: a build directory that went through <first> and was then reconfigured to <then> must hold the same generated
+# text as a fresh build directory configured with <then> directly
+HIST_PROJECT = {
+    'meson.build': """project('hist', 'c', version: '1')
+foo = dependency('foo')
+lib = library('l', 'f.c', dependencies: foo)
+executable('e', 'm.c', link_with: lib)
+message(get_option('o_a'))
+configure_file(output: 'conf.h', configuration: {'A': get_option('o_a'), 'V': foo.version()})
+""",
+    'meson.options': "option('o_a', type: 'string', value: 'a')\noption('o_b', type: 'boolean', value: false)\n",
+    'f.c': 'int f(void) { return 1; }\n',
+    'm.c': 'int f(void); int main(void) { return f() - 1; }\n',
+    'pcA/foo.pc': 'd=1\n\nName: foo\nDescription: d\nVersion: 1.0.1\nCflags: -DFOO_FROM_A\n',
+    'pcB/foo.pc': 'd=1\ne=2\n\nName: foo\nDescription: d\nVersion: 1.0.2\nCflags: -DFOO_FROM_B\n',
+}
+HISTORIES = {
+    'pkg_config_path-switched': (['-Dpkg_config_path=@SRC@/pcA'], ['-Dpkg_config_path=@SRC@/pcB']),
+    'project-option-changed': (['-Dpkg_config_path=@SRC@/pcA', '-Do_a=x', '-Do_b=true'], ['-Dpkg_config_path=@SRC@/pcA', '-Do_a=y', '-Do_b=false']),
+    'default_library-changed': (['-Dpkg_config_path=@SRC@/pcA', '-Ddefault_library=static'], ['-Dpkg_config_path=@SRC@/pcA', '-Ddefault_library=shared']),
+    'buildtype-changed': (['-Dpkg_config_path=@SRC@/pcA', '-Dbuildtype=release'], ['-Dpkg_config_path=@SRC@/pcA', '-Dbuildtype=debug']),
+    'base-option-changed': (['-Dpkg_config_path=@SRC@/pcA', '-Db_ndebug=true', '-Db_lto=true'], ['-Dpkg_config_path=@SRC@/pcA', '-Db_ndebug=false', '-Db_lto=false']),
+}
+
+
+def _hist_chunk(chunk):
+    repo = os.environ.get('VERIF_REPO', '/repo')
+    fails, nt = [], 0
+    for name in chunk:
+        first, then = HISTORIES[name]
+        d = tempfile.mkdtemp(prefix='c06hist')
+        try:
+            src, build = os.path.join(d, 'src'), os.path.join(d, 'build')
+            for rel, text in HIST_PROJECT.items():
+                p = os.path.join(src, rel)
+                os.makedirs(os.path.dirname(p), exist_ok=True)
+                open(p, 'w').write(text)
+            sub = lambda a: [x.replace('@SRC@', src) for x in a]
+            env_clean = {k: v for k, v in os.environ.items() if not k.startswith('PKG_CONFIG')}
+            def st(extra):
+                env = dict(env_clean, PYTHONHASHSEED='3', NINJA=stub_ninja(d))
+                r = subprocess.run([sys.executable, os.path.join(repo, 'meson.py'), 'setup', *extra, build, src], capture_output=True, text=True, env=env)
+                return r.returncode, r.stdout[-300:] + r.stderr[-300:]
+            rc, out = st(sub(first))
+            if rc == 0:
+                rc, out = st(['--reconfigure'] + sub(then))
+            nt += 1
+            if rc != 0:
+                fails.append({'case': {'history': name}, 'stage': 'history', 'detail': 'configuration failed: ' + out})
+                continue
+            hist = snapshot(build)
+            shutil.rmtree(build)
+            rc, out = st(sub(then))
+            if rc != 0:
+                fails.append({'case': {'history': name}, 'stage': 'history', 'detail': 'fresh configuration failed: ' + out})
+                continue
+            fresh = snapshot(build)
+            diff = sorted(k for k in set(hist) | set(fresh) if hist.get(k) != fresh.get(k) and not k.endswith('cmd_line.txt'))
+            if diff:
+                fails.append({'case': {'history': name, 'first': first, 'then': then}, 'stage': 'history',
+                              'detail': f'the build directory configured with {first} and reconfigured with {then} differs from a fresh one configured with {then} in {diff}'})
+        finally:
+            shutil.rmtree(d, ignore_errors=True)
+    return len(chunk), nt, fails
 
 
 def write_project(name, d):
@@ -86,7 +160,7 @@ def snapshot(build):
         for f in files:
             p = os.path.join(root, f)
             rel = os.path.relpath(p, build)
-            if rel.startswith('meson-info' + os.sep + 'intro-') or rel == os.path.join('meson-private', 'cmd_line.txt') or (os.sep not in rel and not f.endswith(('.dat', '.log', '.json')) and not f.startswith('.')):
+            if rel.startswith('meson-info' + os.sep + 'intro-') or rel == os.path.join('meson-private', 'cmd_line.txt') or (rel.startswith('meson-private' + os.sep) and rel.endswith('.pc')) or (os.sep not in rel and not f.endswith(('.dat', '.log', '.json')) and not f.startswith('.')):
                 out[rel] = hashlib.sha256(open(p, 'rb').read()).hexdigest()
     return out
 
@@ -158,9 +232,14 @@ def _det_chunk(chunk):
 def run(REG, tier, seed, jobs):
     names = list(PROJECTS)
     ev, nt, fails = pmap(_det_chunk, chunked(iter(names), 1), min(jobs, len(names)))
-    return {'parts': [{'name': 'C06/bounded/whole-configure-runs-byte-identical', 'function': 'meson setup with the ninja back end and a stub ninja (fresh interpreters)',
+    hev, hnt, hfails = pmap(_hist_chunk, chunked(iter(list(HISTORIES)), 1), min(jobs, len(HISTORIES)))
+    hpart = {'name': 'C06/bounded/history-independence', 'function': 'meson setup, then meson setup --reconfigure with changed options, against a fresh meson setup (ninja back end, stub ninja, real cc and pkg-config)',
+             'bound': f'{len(HISTORIES)} histories of one C project with a pkg-config dependency, a library, a configure_file: ' + ', '.join(HISTORIES) + '; build.ninja, meson-info/intro-*.json, generated files compared byte for byte (cmd_line.txt excluded: it records the history by design)',
+             'evaluations': hev, 'distinct_nontrivial': hnt, 'rule': 'every history', 'exhaustive': False, 'failures': hfails}
+    return {'parts': [hpart, {'name': 'C06/bounded/whole-configure-runs-byte-identical', 'function': 'meson setup with the ninja back end and a stub ninja (fresh interpreters)',
                        'bound': f'{len(names)} generated projects (install data and subdirs with excludes; configuration data and configure_file; custom / run / alias targets with depends and env, tests depending on targets; tests, benchmarks and test setups with env; options, subproject, dependency variables) x 6 PYTHONHASHSEED values x environment in two orders, then a reconfigure with nothing changed',
                        'evaluations': ev, 'distinct_nontrivial': nt, 'rule': 'every setup run', 'exhaustive': False, 'failures': fails}]}
 
 
-CHECKS = {'C06/bounded/whole-configure-runs-byte-identical': (_det_chunk, lambda c: c['project'])}
+CHECKS = {'C06/bounded/whole-configure-runs-byte-identical': (_det_chunk, lambda c: c['project']),
+          'C06/bounded/history-independence': (_hist_chunk, lambda c: c['history'])}
